@@ -171,3 +171,30 @@ func hashBytes(b []byte) uint64 {
 	}
 	return h
 }
+
+// Part is one weighted member of a Multi scenario.
+type Part struct {
+	W int
+	S Scenario
+}
+
+// Multi draws which member scenario a run executes (label "which").
+type Multi struct {
+	Parts []Part
+}
+
+type multiPlan struct {
+	Which int `json:"which"`
+	Plan  any `json:"plan"`
+}
+
+func (m *Multi) Run(t *core.Tape, env *Env) (any, []core.Violation) {
+	ws := make([]int, len(m.Parts))
+	for i, p := range m.Parts {
+		ws[i] = p.W
+	}
+	k := t.S("which").Weighted(ws...)
+	env.Stats.SigAdd(uint64(k) + 0x77)
+	plan, v := m.Parts[k].S.Run(t, env)
+	return multiPlan{k, plan}, v
+}
